@@ -75,7 +75,11 @@ func ValueNames(v any) string {
 	for i := 0; i < rv.NumField(); i++ {
 		names = append(names, rv.Type().Field(i).Name)
 	}
-	return rv.Type().Name() + "/" + strings.Join(names, ",")
+	tn := rv.Type().Name()
+	if i := strings.IndexByte(tn, '['); i >= 0 {
+		tn = tn[:i] + "[...]" // type arguments carry package qualifiers, which are not promised
+	}
+	return tn + "/" + strings.Join(names, ",")
 }
 
 func JSON(v any) string {
@@ -190,6 +194,11 @@ func reflShapes() []reflShape {
 		{"generic", func(p string, r *rand.Rand) (string, string, string, []string, string) {
 			return fmt.Sprintf("type %[1]sArg struct {\n\t%[1]sGA int\n}\n\ntype %[1]sG[T any] struct {\n\t%[1]sVal T\n\t%[1]sN int\n}\n", p),
 				p + "G[" + p + "Arg]", p + "G[" + p + "Arg]{" + p + "N: 6}", []string{p + "Val", p + "N"}, fmt.Sprintf(`{"%[1]sVal": {"%[1]sGA": 8}, "%[1]sN": 2}`, p)
+		}},
+		{"generictwice", func(p string, r *rand.Rand) (string, string, string, []string, string) {
+			// the same generic type instantiated with two different type arguments
+			return fmt.Sprintf("type %[1]sArgA struct {\n\t%[1]sGA int\n}\n\ntype %[1]sArgB struct {\n\t%[1]sGB string\n}\n\ntype %[1]sG[T any] struct {\n\t%[1]sVal T\n}\n\ntype %[1]sT struct {\n\t%[1]sX %[1]sG[%[1]sArgA]\n\t%[1]sY %[1]sG[%[1]sArgB]\n\t%[1]sZ []%[1]sG[*%[1]sArgB]\n}\n", p),
+				p + "T", p + "T{}", []string{p + "X", p + "Y", p + "Z"}, fmt.Sprintf(`{"%[1]sX": {"%[1]sVal": {"%[1]sGA": 1}}, "%[1]sY": {"%[1]sVal": {"%[1]sGB": "b"}}}`, p)
 		}},
 		{"alias", func(p string, r *rand.Rand) (string, string, string, []string, string) {
 			return fmt.Sprintf("type %[1]sReal struct {\n\t%[1]sA int\n}\n\ntype %[1]sT = %[1]sReal\n", p),
